@@ -332,6 +332,28 @@ def rule_SS4_points(ctx, rep):
                             continue
                         if cnorm(routes.xp(fn, rb.src, rb.node, pm)) == src_p:
                             hit = e
+                    if hit is None:
+                        # the party list is a comprehension over a range, and the receives are posted by a comprehension over a range:
+                        # position k of both denotes the same party (as linear forms modulo the number of parties)
+                        from .rules_ss import _subst
+                        pl_ = routes.xp(fn, pb.src_of(praw.id), pb.node, pm)
+                        if isinstance(pl_, ast.ListComp) and len(pl_.generators) == 1 and not pl_.generators[0].ifs and isinstance(pl_.generators[0].target, ast.Name):
+                            gb = routes.binder_of(fn, pl_.generators[0].target, pl_.generators[0].iter, pb.node, pm, pb.node)
+                            mp_ = routes._mod_parts(pl_.elt)
+                            if gb is not None and gb.kind == 'range' and mp_ is not None and routes.is_M(fn, mp_[1], tup, pm):
+                                Lp_ = routes.lin(fn, mp_[0])
+                                k_ = Lin.sym('__k__')
+                                for e in recvs:
+                                    if e.slot is None or e.slot[0] != 'comp' or not isinstance(cont, ast.Name) or e.slot[1] != cont.id or len(e.slot[2].generators) != 1 \
+                                            or e.slot[2].generators[0].ifs:
+                                        continue
+                                    rb_ = [b for b in e.binders if b.node is e.slot[2]]
+                                    rp_ = routes._mod_parts(e.peer)
+                                    if len(rb_) == 1 and rb_[0].kind == 'range' and rp_ is not None and Lp_ is not None:
+                                        Lr_ = routes.lin(fn, rp_[0])
+                                        if Lr_ is not None and _subst(Lp_, gb.var, k_ + gb.lo) == _subst(Lr_, rb_[0].var, k_ + rb_[0].lo) \
+                                                and (gb.hi - gb.lo) == (rb_[0].hi - rb_[0].lo):
+                                            hit = e
                     if hit is not None:
                         rep.ok('SS4', fn, tup, f'slot k holds the share received from the k-th party of {norm(pb.src_of(praw.id))}; it is attributed to that party\'s point')
                     else:
